@@ -35,6 +35,13 @@ type specEnv struct {
 	entryParams bool // bare parameter names denote entry values (ensures clauses)
 	isCallee    bool
 	preTop      Term
+	guards      []Term // conditions under which the expression being evaluated is reached (ite / && / || / ==>)
+}
+
+func (e *specEnv) under(g Term) *specEnv {
+	c := *e
+	c.guards = append(append([]Term{}, e.guards...), g)
+	return &c
 }
 
 func (e *specEnv) child() *specEnv {
@@ -211,6 +218,9 @@ func (fx *FuncCtx) specEval(env *specEnv, e ast.Expr) sval {
 		switch bv := b.v.(type) {
 		case SliceV:
 			i := fx.specTerm(env, x.Index)
+			if fx.recBuilding != nil {
+				fx.recBuilding.noteRead(env, bv, i)
+			}
 			return sval{fx.memRead(env.cur, bv, i), bv.Elem}
 		case ArrayV:
 			i := fx.specTerm(env, x.Index)
@@ -343,10 +353,11 @@ func (fx *FuncCtx) fieldIndexDeep(t types.Type, name string) ([]int, *types.Stru
 func (fx *FuncCtx) specBinary(env *specEnv, x *ast.BinaryExpr) sval {
 	if x.Op == token.LAND || x.Op == token.LOR {
 		a := fx.specBool(env, x.X)
-		b := fx.specBool(env, x.Y)
 		if x.Op == token.LAND {
+			b := fx.specBool(env.under(a), x.Y)
 			return sval{And(a, b), nil}
 		}
+		b := fx.specBool(env.under(Not(a)), x.Y)
 		return sval{Or(a, b), nil}
 	}
 	l := fx.specEval(env, x.X)
@@ -481,14 +492,23 @@ func (fx *FuncCtx) specCall(env *specEnv, x *ast.CallExpr) sval {
 		}
 		return sval{Term{fmt.Sprintf("(exists ((%s Int)) %s)", bv.S, And(rng, body).S), SBool}, nil}
 	case "implies":
-		return sval{Implies(fx.specBool(env, x.Args[0]), fx.specBool(env, x.Args[1])), nil}
+		h := fx.specBool(env, x.Args[0])
+		return sval{Implies(h, fx.specBool(env.under(h), x.Args[1])), nil}
 	case "ite":
 		c := fx.specBool(env, x.Args[0])
-		a := arg(1)
-		b := arg(2)
+		a := fx.specEval(env.under(c), x.Args[1])
+		b := fx.specEval(env.under(Not(c)), x.Args[2])
 		at, _ := unwrapScalar(a.v)
 		bt, _ := unwrapScalar(b.v)
-		return sval{Ite(c, at, bt), a.t}
+		rt := a.t
+		if at.Sort != bt.Sort {
+			if n, ok := isIntLit(at); ok && at.Sort == SInt {
+				at, rt = fx.floatConst(float64(n), bt.Sort), b.t
+			} else if n, ok := isIntLit(bt); ok && bt.Sort == SInt {
+				bt = fx.floatConst(float64(n), at.Sort)
+			}
+		}
+		return sval{Ite(c, at, bt), rt}
 	case "abs":
 		a := argT(0)
 		if a.Sort == SInt {
